@@ -94,6 +94,7 @@ def run(chk):
                         ids(view["targets"][1]), ids(view["snapshot"][1]), ids(view["timestamp"][1])]
             mcases.append(([17, 0, 1, old_view, add_ids], new_view, full))
         chk.sample({k: desc[k] for k in ("consistent_snapshot", "delegated", "added")}, limit=4)
+    edops_updates(chk, 24 if chk.tier == "quick" else 400)
     mres = C.run_model([m[0] for m in mcases])
     for (mc, new_view, full), mr in zip(mcases, mres):
         if isinstance(mr, list) and len(mr) == 5:
@@ -101,6 +102,101 @@ def run(chk):
         if mr != new_view:
             chk.broken("correspondence: model of the update differs from the editor", dict(full, model=str(mr)[:400], impl=str(new_view)[:400]))
     return chk
+
+
+def edops_updates(chk, n):
+    """C17_update_preserves_tree is a theorem about the model of the editing operations (Model/EdOps.v). Its tie to
+    the code: two-generation programs - a repository with delegated roles built and written by the real editor,
+    loaded again (from_repo), additions / removals / new versions, sign, write - are run through the real editor and
+    through the extracted model; answers per call are compared, the model's state at the second sign must keep the
+    delegated roles of the first (the theorem, evaluated), ed_sign_tree on that state must describe every file the
+    real editor wrote the second time, and the delegated roles' files must be byte-identical to the first generation's."""
+    from checks import C10
+    rng = chk.rng
+    cases, metas = [], []
+    for i in range(n):
+        s = scen.Scen()
+        cs = rng.random() < 0.5
+        r = s.root(cs=cs)
+        E = {"op": "expires", "targets": 86400 * 41}
+        prog = [{"op": "new"}, {"op": "add_target", "name": "top.txt", "content": "top-%d" % i},
+                {"op": "add_target", "name": "gone.txt", "content": "gone-%d" % i},
+                {"op": "delegate_role", "name": "A", "keys": [4, 5], "paths": ["a/*"], "threshold": rng.choice([1, 2]),
+                 "expires": 86400 * 40, "version": 1},
+                {"op": "delegate_role", "name": "B b", "keys": [7], "paths": ["b/*"], "threshold": 1,
+                 "expires": 86400 * 40, "version": 4},
+                {"op": "versions", "targets": 2}, E, {"op": "sign_targets_editor", "keys": [2]},
+                {"op": "change_delegated_targets", "role": "A"},
+                {"op": "add_target", "name": "a/x", "content": "x-%d" % i},
+                {"op": "delegate_role", "name": "C", "keys": [10, 12], "paths": ["a/c/*"], "threshold": 1,
+                 "expires": 86400 * 40, "version": 1},
+                {"op": "versions", "targets": 3}, E, {"op": "sign_targets_editor", "keys": [5, 4]},
+                {"op": "change_delegated_targets", "role": "targets"},
+                {"op": "versions", "targets": 7, "snapshot": 8, "timestamp": 9},
+                {"op": "expires", "targets": 86400 * 50, "snapshot": 86400 * 51, "timestamp": 86400 * 52},
+                {"op": "sign_write", "keys": [1, 2, 3], "publish": "all", "link": False},
+                {"op": "files"},
+                {"op": "from_repo"}]
+        first_files_at = len(prog) - 2
+        for k in range(rng.randint(0, 4)):
+            what = rng.choice(["add", "add", "override", "remove", "add-remove"])
+            if what in ("add", "add-remove"):
+                prog.append({"op": "add_target", "name": "new%d.bin" % k, "content": "new-%d-%d" % (i, k)})
+            if what == "override":
+                prog.append({"op": "add_target", "name": "top.txt", "content": "top2-%d-%d" % (i, k)})
+            if what == "remove":
+                prog.append({"op": "remove_target", "name": "gone.txt"})
+            if what == "add-remove":
+                prog.append({"op": "remove_target", "name": "new%d.bin" % k})
+        prog += [{"op": "versions", "targets": 17 + i, "snapshot": 18 + i, "timestamp": 19 + i},
+                 {"op": "expires", "targets": 86400 * 60, "snapshot": 86400 * 61, "timestamp": 86400 * 62},
+                 {"op": "sign_write", "keys": [1, 2, 3], "publish": "all", "link": False}, {"op": "load"}]
+        cases.append({"p": 10, "docs": s.docs, "root": r, "program": prog})
+        metas.append((cs, first_files_at))
+    out = C.run_impl(cases)
+    dgs = [C10.Digests() for _ in cases]
+    pcs = [C10.prog_case(c["program"], c["docs"][c["root"]], dg) for c, dg in zip(cases, dgs)]
+    pres = C.run_model([pc[0] for pc in pcs])
+    pool_all = [C.b2s(e) for e in C.run_impl([[12, 3]])[0]]
+    tcs = []
+    for (cs, ffa), c, o, dg, pc, pr in zip(metas, cases, out, dgs, pcs, pres):
+        chk.count("edops-update-program")
+        res = o.get("results") if isinstance(o, dict) else None
+        full = {"program": c["program"], "results": res, "consistent_snapshot": cs}
+        if res is None or any(r[0] != 0 for r in res):
+            chk.broken("two-generation update program failed in the real editor: %s" % json.dumps(res)[:300], full)
+            continue
+        states = C10.compare_program(chk, c["program"], res, pc[1], pr, full)
+        if not (isinstance(states, list) and len(states) == 2 and states[0][0] == 1 and states[1][0] == 1):
+            chk.broken("correspondence: the model of the editing operations does not reach both sign calls", dict(full, model=pr))
+            continue
+        # the theorem, evaluated: delegated roles and key table of the second sign are those of the first
+        if states[1][3] != states[0][3] or sorted(states[1][2]) != sorted(states[0][2]):
+            chk.broken("the model of the editing operations changed the delegated roles across an update "
+                       "(C17_update_preserves_tree says it cannot)", dict(full, model=pr))
+        # the files of the delegated roles, first generation against second
+        first = res[ffa][1] if len(res[ffa]) > 1 and isinstance(res[ffa][1], dict) else None
+        final = o["final_files"]
+        if first is not None:
+            for name, text in first.items():
+                base = name.split(".", 1)[1] if cs and name[0].isdigit() else name
+                # compared after parsing: the order of the members of a key table (a HashMap) is not content
+                if base in ("A.json", "B%20b.json", "C.json") and (name not in final or json.loads(final[name]) != json.loads(text)):
+                    chk.violation("the file of delegated role %s (content or signatures) was altered by the update" % base, full)
+        else:
+            chk.count("edops-update-no-first-listing")
+        try:
+            wt = C10.written_tree(final, cs, o["base"], pool_all, dg, c["docs"][c["root"]]["version"])
+            tcs.append((full, C10.tree_case_from_state(states[1], c["docs"][c["root"]], final, cs, dg), wt))
+        except C10.Unabstractable as e:
+            chk.broken("correspondence: the files the update wrote cannot be abstracted (%s)" % e, full)
+    mres = C.run_model([t[1] for t in tcs])
+    for (full, case, want), mr in zip(tcs, mres):
+        chk.count("edops-update-files-compared")
+        if C10.canon_tree(mr) != C10.canon_tree(want):
+            chk.broken("correspondence: ed_sign_tree on the state the model of the editing operations reaches differs from the "
+                       "files the real editor wrote after the update",
+                       dict(full, model=C10.canon_tree(mr), written=C10.canon_tree(want)))
 
 
 def replay(path):
